@@ -145,6 +145,7 @@ type entryReport struct {
 	SkippedGo    []string       `json:"go_statements_not_executed,omitempty"`
 	Stubs        []string       `json:"stubs_used,omitempty"`
 	ForeignGlobals []string     `json:"foreign_globals_read_uninitialised,omitempty"`
+	Elided       []string       `json:"logging_only_branches_elided,omitempty"`
 }
 
 func runCheck(id, tier, filter string) int {
@@ -258,7 +259,7 @@ func runCheck(id, tier, filter string) int {
 				Discharged: res.Discharged, Trivial: res.Trivial, Unknown: res.Unknown, UnknownBr: res.UnknownBranch,
 				Queries: res.Queries, SolverS: res.SolverTime.Seconds(), WallS: res.Wall.Seconds(), Reached: res.Reached,
 				AssertSites: res.AssertSites, Aborted: res.Aborted, AbortMsgs: res.AbortMsgs, Violations: len(res.Violations),
-				SkippedGo: res.SkippedGo, Stubs: res.StubsUsed, ForeignGlobals: res.ForeignGlobals,
+				SkippedGo: res.SkippedGo, Stubs: res.StubsUsed, ForeignGlobals: res.ForeignGlobals, Elided: res.Elided,
 			}
 			fmt.Printf("[%s] %s: paths=%d infeasible=%d obligations=%d(+%d by normalisation) discharged=%d unknown=%d violations=%d queries=%d solver=%.1fs wall=%.1fs\n",
 				id, e.Name, res.Paths, res.Infeasible, res.Obligations, res.Trivial, res.Discharged, res.Unknown, len(res.Violations), res.Queries, res.SolverTime.Seconds(), res.Wall.Seconds())
